@@ -1001,6 +1001,49 @@ class RemoteEnd:
 # ===========================================================================
 # os / select / time / random / socket shims
 # ===========================================================================
+class VSctpSocket(VSocket):
+    """pysctp's one-to-one style socket (`sctp.sctpsocket_tcp`): a stream-like socket with bindx / connectx /
+    sctp_send.  Only what the node uses is offered; multi-homing is reduced to "the first address"."""
+    is_sctp = True
+
+    def __init__(self, family=None, sk=None):
+        super().__init__(family if family is not None else _rsocket.AF_INET, _rsocket.SOCK_STREAM)
+        self.bound_addrs = []
+
+    def bindx(self, sockaddrs, action=None):
+        self._check_open()
+        addrs = [tuple(a) for a in sockaddrs]
+        for a in addrs:
+            if a in self.net.listeners and not self.net.listeners[a].closed:
+                raise _oserr(_errno.EADDRINUSE)
+        self.bound_addrs = addrs
+        self.local_addr = addrs[0]
+
+    def listen(self, backlog=128):
+        super().listen(backlog)
+        for a in self.bound_addrs[1:]:
+            self.net.listeners[a] = self
+
+    def connectx(self, sockaddrs, assoc_id=None):
+        return self.connect(tuple(sockaddrs[0]))
+
+    def close(self):
+        if not self.closed and self.state == "listening":
+            for a in self.bound_addrs[1:]:
+                if self.net.listeners.get(a) is self:
+                    del self.net.listeners[a]
+        super().close()
+
+
+def _make_sctp_module():
+    m = types.ModuleType("sctp")
+    m.sctpsocket = VSctpSocket
+    m.sctpsocket_tcp = VSctpSocket
+    m.MSG_UNORDERED = 0x1
+    m.__verif_fake__ = True
+    return m
+
+
 def _os_pipe():
     net = K().net
     p = Pipe()
@@ -1213,7 +1256,7 @@ def build_shims():
 _loaded = {}
 
 
-def load_node(with_sctp: bool = False):
+def load_node(with_sctp: bool = True):
     """(Re)import diameter.node with the shim modules bound; once per process."""
     key = bool(with_sctp)
     if key in _loaded:
@@ -1231,6 +1274,8 @@ def load_node(with_sctp: bool = False):
     sys.modules.update(shims)
     if not with_sctp:
         sys.modules["sctp"] = None        # `import sctp` -> ImportError, as without pysctp
+    else:
+        sys.modules["sctp"] = _make_sctp_module()     # pysctp is not installed here: a fake offering what the node uses
     try:
         node_pkg = importlib.import_module("diameter.node")
         mods = {n: importlib.import_module(f"diameter.node.{n}")
